@@ -267,7 +267,7 @@ theorem flat_core (ovs : List (Obj × Int)) :
   | cons ov rest ih =>
     intro s d hok hall horig hcur hmsg hw
     obtain ⟨o, v⟩ := ov
-    obtain ⟨⟨hk, hbl⟩, hr⟩ := hok (o, v) (List.mem_cons_self ..)
+    obtain ⟨⟨hk, hbl, _⟩, hr⟩ := hok (o, v) (List.mem_cons_self ..)
     have h1 := encStep_warn_ge o v s
     have h2 := encAll_warn_ge rest (encStep o v s)
     have hrest : (encAll rest (encStep o v s)).warn = (encStep o v s).warn := by simp only [encAll] at hw; omega
